@@ -57,6 +57,10 @@ class DirectCollocation(SamplingMethod):
         self.degree = degree
         self.tau = collocation_points(degree, scheme)
         [self.C, self.D, self.B] = collocation_coeff(self.tau)
+        # Quadrature weights: the interpolatory rule on the collocation points themselves.
+        # collocation_coeff integrates the interpolant through the interval start point as well and
+        # drops the weight of that point, which is nonzero for a single Radau point (B=[0.5]).
+        self.B = DM(np.linalg.solve(np.vander(self.tau, increasing=True).T, 1.0/np.arange(1, degree+1))).T
         self.clean()
 
     def clean(self):
